@@ -13,7 +13,9 @@ git -C "$VM" reset -q --hard; git -C "$VM" checkout -q -f --detach "$(git -C /ve
 if [ ! -d "$RM" ]; then git -C /repo worktree add -q --detach "$RM" HEAD; fi
 git -C "$RM" checkout -q -- . ; git -C "$RM" clean -fdq; git -C "$RM" checkout -q --detach "$(git -C /repo rev-parse HEAD)"
 if [ "$PATCH" != "none" ]; then
-  git -C "$RM" apply "$PATCH" || { echo "PATCH DOES NOT APPLY"; exit 2; }
+  # seeded patches were written against an earlier /repo HEAD: fall back to a 3-way merge
+  git -C "$RM" apply "$PATCH" 2>/dev/null || git -C "$RM" apply --3way "$PATCH" 2>/dev/null || { echo "PATCH DOES NOT APPLY"; exit 2; }
+  git -C "$RM" reset -q
 fi
 if [ $TESTS -eq 1 ]; then
   ( cd "$RM" && CARGO_TARGET_DIR="${RM}-target" cargo test --workspace --no-fail-fast --offline 2>&1 | awk '/^test result/ {p+=$4; f+=$6} /^test .* FAILED/ {print} /^error/ {print} END {print "repo tests with patch: passed=" p " failed=" f}' )
